@@ -446,6 +446,23 @@ func (w *World) ReplayTape(pkg, fn, tapePath string) (string, error) {
 	seq := replaySeq
 	replayMu.Unlock()
 	src := fmt.Sprintf("package %s\n\nimport (\n\t\"testing\"\n\t\"%s/vp\"\n)\n\nfunc TestVpReplay(t *testing.T) {\n\t%s()\n\tvp.Done()\n}\n", p.Name, ModPath, fn)
+	if _, isVirt := w.Virtual[pkg]; isVirt {
+		dir, err := w.ScratchModule()
+		if err != nil {
+			return "", err
+		}
+		tf := filepath.Join(dir, pkg, fmt.Sprintf("zz_replay_%d_test.go", seq))
+		if err := os.WriteFile(tf, []byte(src), 0o644); err != nil {
+			return "", err
+		}
+		defer os.Remove(tf)
+		cmd := exec.Command("go", "test", "-vet=off", "-count=1", "-run", "^TestVpReplay$", "-v", "-timeout", "120s", "./"+pkg)
+		cmd.Dir = dir
+		abs, _ := filepath.Abs(tapePath)
+		cmd.Env = append(GoEnv(), "VP_TAPE="+abs)
+		out, err := cmd.CombinedOutput()
+		return string(out), err
+	}
 	real := filepath.Join(w.TmpDir, fmt.Sprintf("replay_%d_test.go", seq))
 	if err := os.WriteFile(real, []byte(src), 0o644); err != nil {
 		return "", err
